@@ -178,6 +178,67 @@ func runClockSuite(seed uint64, n int, out *Out, stats *Stats) {
 				out.Violation("C20", id, fmt.Sprintf("%d calls after Stop", as))
 			}
 		}
+		if i%16 == 7 {
+			// Stop while Start is still waiting for its first period boundary: no call may ever happen
+			// and Start must return. The wait is real time (the scripted reading is 40 ms before a
+			// boundary), Stop lands 5 ms into it.
+			timer := 50 * time.Millisecond
+			d := int64(timer)
+			b := base + int64(r.U64n(1_000_000))*d
+			b -= gridMod(b, d)
+			watch := &ScriptWatch{readings: []int64{b - 40*int64(time.Millisecond)}, fallback: func() int64 { return b + 1 }}
+			occ, skipped := int64(1), 0
+			if r.Chance(1, 2) {
+				occ, skipped = 4, 1
+			}
+			var mu sync.Mutex
+			calls, callsAfter := 0, 0
+			stopReturned := false
+			e := clock.NewEngine(func(int64) {
+				mu.Lock()
+				calls++
+				if stopReturned {
+					callsAfter++
+				}
+				mu.Unlock()
+			}, watch, timer, occ, skipped)
+			done := make(chan struct{})
+			go func() { e.Start(); close(done) }()
+			// wait until Start has read the clock (it is then past `started = true` and about to wait), however
+			// loaded the machine is
+			for k := 0; k < 4000; k++ {
+				watch.mu.Lock()
+				n := len(watch.served)
+				watch.mu.Unlock()
+				if n > 0 {
+					break
+				}
+				time.Sleep(500 * time.Microsecond)
+			}
+			time.Sleep(2 * time.Millisecond)
+			e.Stop()
+			mu.Lock()
+			stopReturned = true
+			mu.Unlock()
+			returned := true
+			select {
+			case <-done:
+			case <-time.After(2 * time.Second):
+				returned = false
+			}
+			time.Sleep(60 * time.Millisecond)
+			mu.Lock()
+			ca, c := callsAfter, calls
+			mu.Unlock()
+			stats.Count(fmt.Sprintf("engine/stop during the first wait/occ%d", occ))
+			if ca > 0 || !returned {
+				out.Violation("C20", id, fmt.Sprintf("stop-during-wait\tStop() was called while Start() was waiting for its first boundary (period %v, %d occurrences, %d skipped): %d calls after Stop returned (%d in all), Start returned: %v", timer, occ, skipped, ca, c, returned))
+				if !returned {
+					e.Stop()
+				}
+			}
+			stats.Ops++
+		}
 		stats.Cases++
 		stats.Ops++
 	}
